@@ -7,6 +7,10 @@ CONSTANTS
   K = 4
   DerivedMax = 2
   MaxFields = 2
+  MaxConsts = 2
+  CKinds = {"int", "text", "msgid", "method"}
   Kinds = {"?", "H", "I", "q", "20s", "varlenH", "varlenHutf8", "bits", "payload", "payload-list", "address", "arrayH-q", "raw"}
 INVARIANT RoundTripDef
 INVARIANT DefaultsUsed
+INVARIANT ConstsOffWire
+CONSTRAINT MembersFocus
